@@ -194,7 +194,7 @@ def real_scores(case):
     from vf.framework import real_repo
     sa = real_repo()
     import numpy as np
-    dt = int if case.get("int") else float
+    dt = np.dtype(case["dtype"]) if case.get("dtype") else (int if case.get("int") else float)
     return sa.Scores(np.asarray(case["pos"], dtype=dt), np.asarray(case["neg"], dtype=dt), nb_easy_pos=case["ep"], nb_easy_neg=case["en"],
                      score_class=case["sc"], equal_class=case["ec"])
 
